@@ -32,11 +32,24 @@ type condFact struct {
 	neg bool
 }
 
+// factExpand, when set by a rule, replaces an identifier that names a single-assignment boolean
+// local by its defining expression (canRetry := idempotent && retried < retry; if canRetry {..}).
+var factExpand func(e ast.Expr) ast.Expr
+
 func collectFacts(parents map[ast.Node]ast.Node, at ast.Node) []condFact {
 	var out []condFact
 	var add func(e ast.Expr, neg bool)
+	depth := 0
 	add = func(e ast.Expr, neg bool) {
 		e = ast.Unparen(e)
+		if factExpand != nil && depth < 4 {
+			if x := factExpand(e); x != nil && x != e {
+				depth++
+				add(x, neg)
+				depth--
+				return
+			}
+		}
 		if u, ok := e.(*ast.UnaryExpr); ok && u.Op == token.NOT {
 			add(u.X, !neg)
 			return
@@ -73,6 +86,34 @@ func collectFacts(parents map[ast.Node]ast.Node, at ast.Node) []condFact {
 		}
 	}
 	return out
+}
+
+// boolLocalExpander returns an expander for the single-assignment boolean locals of body.
+func boolLocalExpander(info *types.Info, body ast.Node) func(e ast.Expr) ast.Expr {
+	defs := localDefs(info, body)
+	return func(e ast.Expr) ast.Expr {
+		id, ok := e.(*ast.Ident)
+		if !ok {
+			return nil
+		}
+		o := info.Uses[id]
+		if o == nil {
+			return nil
+		}
+		if b, ok := o.Type().Underlying().(*types.Basic); !ok || b.Kind() != types.Bool {
+			return nil
+		}
+		d, ok := defs[o]
+		if !ok || d == nil {
+			return nil
+		}
+		// only comparisons / logical combinations are worth expanding
+		switch ast.Unparen(d).(type) {
+		case *ast.BinaryExpr, *ast.UnaryExpr:
+			return d
+		}
+		return nil
+	}
 }
 
 // strictLess: does the fact say a < b strictly (in any accepted spelling)?
@@ -144,6 +185,8 @@ func ruleG1(r *Run) {
 	info := pkg.TypesInfo
 	self, _ := info.Defs[fd.Name].(*types.Func)
 	parents := parentMap(fd)
+	factExpand = boolLocalExpander(info, fd.Body)
+	defer func() { factExpand = nil }()
 	idem := definedByCall(info, fd.Body, "GetBool", "idempotent")
 	retry := definedByCall(info, fd.Body, "GetInt", "retry")
 	retried := definedByCall(info, fd.Body, "GetInt", "retried")
@@ -273,6 +316,8 @@ func ruleG2(r *Run) {
 	}
 	info := pkg.TypesInfo
 	parents := parentMap(fd)
+	factExpand = boolLocalExpander(info, fd.Body)
+	defer func() { factExpand = nil }()
 	errBreaker := p.LookupObj("rpc/plugins/circuitbreaker", "ErrBreaker")
 	// the rejecting return
 	var rej *ast.ReturnStmt
